@@ -341,6 +341,8 @@ def check_selection(prop: str, res: Result, repo: Repo):
                     conds.append((item[1].test, item[2]))
                     continue
                 st = item
+                if isinstance(item, tuple) and item and item[0] == "loop-enter":
+                    st = item[1]
                 if not isinstance(st, ast.AST):
                     continue
                 expr = st.iter if isinstance(st, ast.For) else st
@@ -348,6 +350,12 @@ def check_selection(prop: str, res: Result, repo: Repo):
                     continue
                 n_sites += 1
                 dominated = any((ast.unparse(t) == f"{np} is None" and truth) or (ast.unparse(t) == f"{np} is not None" and not truth) for t, truth in conds)
+                if not dominated and isinstance(expr, ast.IfExp):
+                    # `A if C else B`: the arm that enumerates everything must be the one taken when no name is given
+                    t = ast.unparse(expr.test)
+                    all_in_body, all_in_else = enumerates_all(expr.body), enumerates_all(expr.orelse)
+                    if (all_in_body and not all_in_else and t == f"{np} is None") or (all_in_else and not all_in_body and t == f"{np} is not None"):
+                        dominated = True
                 filtered = False
                 if isinstance(st, ast.For):
                     filtered = all(isinstance(b, ast.If) and any(isinstance(x, ast.Compare) and isinstance(x.ops[0], ast.Eq) and np in {ast.unparse(x.left), ast.unparse(x.comparators[0])} for x in ast.walk(b.test)) for b in st.body)
